@@ -33,11 +33,13 @@ pub struct FaultPlan {
     pub crash: Option<(usize, usize, usize)>,
     /// deliver through fragmenting readers
     pub fragment: bool,
+    /// (round, from, to) messages that are delivered twice (at-least-once transport)
+    pub dup: BTreeSet<(usize, usize, usize)>,
 }
 
 impl FaultPlan {
     pub fn is_empty(&self) -> bool {
-        self.lost.is_empty() && self.truncated.is_empty() && self.crash.is_none()
+        self.lost.is_empty() && self.truncated.is_empty() && self.crash.is_none() && self.dup.is_empty()
     }
     pub fn to_json(&self) -> Value {
         json!({
@@ -45,6 +47,7 @@ impl FaultPlan {
             "truncated": self.truncated.iter().map(|((r, f, t), k)| json!([r, f, t, k])).collect::<Vec<_>>(),
             "crash": self.crash.map(|(p, r, k)| json!([p, r, k])),
             "fragment": self.fragment,
+            "duplicated": self.dup.iter().map(|(r, f, t)| json!([r, f, t])).collect::<Vec<_>>(),
         })
     }
     pub fn from_json(v: &Value) -> Option<Self> {
@@ -61,25 +64,36 @@ impl FaultPlan {
             p.crash = Some((a[0].as_u64()? as usize, a[1].as_u64()? as usize, a[2].as_u64()? as usize));
         }
         p.fragment = v["fragment"].as_bool().unwrap_or(false);
+        if let Some(d) = v["duplicated"].as_array() {
+            for x in d {
+                let a = x.as_array()?;
+                p.dup.insert((a[0].as_u64()? as usize, a[1].as_u64()? as usize, a[2].as_u64()? as usize));
+            }
+        }
         Some(p)
     }
 }
 
-/// How deliveries are ordered.
+/// An event of the session history: kind 0 = party starts, 1 = party writes its message of `round`
+/// for one recipient, 2 = that message is handed to the recipient's protocol object.
+pub type EvId = (u8, usize, usize, usize); // (kind, round, from, to)
+
+/// How events are ordered.
 #[derive(Clone, Debug, PartialEq)]
 pub enum Order {
     /// latencies drawn from the PRNG
     Seeded(u64),
-    /// replay: explicit delivery order as (round, from, to); anything not listed follows in canonical order
-    Forced(Vec<(usize, usize, usize)>),
-    /// canonical index order
+    /// replay: explicit event order; anything not listed follows in canonical order
+    Forced(Vec<EvId>),
+    /// canonical order: per round all sends in index order, then all deliveries in index order
     Canonical,
 }
 
 #[derive(Debug)]
 enum Ev {
     Start { party: usize },
-    Deliver { round: usize, from: usize, to: usize, bytes: Vec<u8>, cut: bool },
+    SendTo { round: usize, from: usize, to: usize },
+    Deliver { round: usize, from: usize, to: usize, bytes: Vec<u8>, dup: bool },
 }
 
 struct Item {
@@ -112,30 +126,42 @@ pub struct NetOutcome {
     pub crashed: Vec<bool>,
     /// the party reached the last round (all advances done)
     pub at_last_round: Vec<bool>,
-    /// delivery order actually used
+    /// delivery order actually used (round, from, to)
     pub delivered: Vec<(usize, usize, usize)>,
+    /// full event order actually used
+    pub history: Vec<EvId>,
     pub events: u64,
     pub lost_fired: u64,
     pub truncated_fired: u64,
     pub crash_fired: u64,
     pub fragmented_reads: u64,
     pub buffered_early: u64,
+    /// a party handled an incoming message of a round between two of its own sends of that round
+    pub receive_between_own_sends: u64,
     pub out_of_index_order: bool,
     /// a local API call panicked where it must not (message, party)
     pub unexpected: Vec<(usize, String)>,
     /// parties that were asked to advance although messages were missing, with the outcome
     pub advance_on_incomplete: Vec<(usize, Result<(), String>)>,
     pub recv_errors: u64,
+    pub dup_fired: u64,
+    /// the party was handed at least one duplicate message
+    pub dup_seen: Vec<bool>,
 }
 
-pub fn order_hash(d: &[(usize, usize, usize)]) -> u64 {
+pub fn order_hash(d: &[EvId]) -> u64 {
     let mut h = util::LogHash::new();
-    for (r, f, t) in d {
+    for (k, r, f, t) in d {
+        h.u64(*k as u64);
         h.u64(*r as u64);
         h.u64(*f as u64);
         h.u64(*t as u64);
     }
     h.finish()
+}
+
+fn canonical_rank(k: u8, r: usize, f: usize, t: usize) -> u64 {
+    (((r * 3 + k as usize) * 64 + f) * 64 + t) as u64
 }
 
 /// Drive one session over the simulated network.
@@ -145,90 +171,29 @@ pub fn drive(n: usize, io: &mut dyn SessionIo, plan: &FaultPlan, order: &Order, 
         Order::Seeded(s) => *s,
         _ => 0,
     });
+    let seeded = matches!(order, Order::Seeded(_));
     let mut frng = Prng::new(frag_seed);
     let mut q: BinaryHeap<Item> = BinaryHeap::new();
     let mut seq = 0u64;
     let mut now;
-    let mut out = NetOutcome { complete: vec![false; n], crashed: vec![false; n], at_last_round: vec![false; n], ..Default::default() };
+    let mut out = NetOutcome { complete: vec![false; n], crashed: vec![false; n], at_last_round: vec![false; n], dup_seen: vec![false; n], ..Default::default() };
     let mut cur_round = vec![0usize; n];
     let mut got: Vec<Vec<BTreeSet<usize>>> = vec![vec![BTreeSet::new(); rounds]; n];
     let mut buffered: Vec<Vec<(usize, usize, Vec<u8>, bool)>> = vec![Vec::new(); n];
-    let forced_rank = |r: usize, f: usize, t: usize| -> u64 {
+    // per (party, round): sends still to do / sends done (for the crash fault and a probe)
+    let mut sends_done = vec![vec![0usize; rounds]; n];
+    let mut sends_total = vec![vec![0usize; rounds]; n];
+    let rank = |k: u8, r: usize, f: usize, t: usize| -> u64 {
         match order {
-            Order::Forced(list) => list.iter().position(|x| *x == (r, f, t)).map(|p| p as u64).unwrap_or(1_000_000 + ((r * 64 + f) * 64 + t) as u64),
-            _ => ((r * 64 + f) * 64 + t) as u64,
+            Order::Forced(list) => list.iter().position(|x| *x == (k, r, f, t)).map(|p| p as u64).unwrap_or(1_000_000 + canonical_rank(k, r, f, t)),
+            _ => canonical_rank(k, r, f, t),
         }
     };
     for p in 0..n {
-        let at = match order {
-            Order::Seeded(_) => rng.below(50),
-            _ => 0,
-        };
+        let at = if seeded { rng.below(50) } else { rank(0, 0, p, p) };
         q.push(Item { at, seq, ev: Ev::Start { party: p } });
         seq += 1;
     }
-
-    // broadcast helper
-    fn broadcast(
-        io: &mut dyn SessionIo, party: usize, round: usize, now: u64, plan: &FaultPlan, order: &Order, rng: &mut Prng,
-        q: &mut BinaryHeap<Item>, seq: &mut u64, out: &mut NetOutcome, forced_rank: &dyn Fn(usize, usize, usize) -> u64,
-    ) {
-        if !io.senders(round).contains(&party) {
-            return;
-        }
-        let msg = match util::catch(|| io.send(party, round)) {
-            Caught::Ok(Ok(m)) => m,
-            Caught::Ok(Err(e)) => {
-                out.unexpected.push((party, format!("send failed in round {}: {}", round, e)));
-                return;
-            }
-            Caught::Panic(m) => {
-                out.unexpected.push((party, format!("send panicked in round {}: {}", round, m)));
-                return;
-            }
-            Caught::Aborted => return,
-        };
-        let mut sent = 0usize;
-        for to in io.receivers(round) {
-            if to == party {
-                continue;
-            }
-            if let Some((cp, cr, k)) = plan.crash {
-                if cp == party && cr == round && sent >= k {
-                    out.crashed[party] = true;
-                    out.crash_fired += 1;
-                    return;
-                }
-            }
-            sent += 1;
-            if plan.lost.contains(&(round, party, to)) {
-                out.lost_fired += 1;
-                continue;
-            }
-            let mut bytes = msg.clone();
-            let mut cut = false;
-            if let Some(&k) = plan.truncated.get(&(round, party, to)) {
-                if k < bytes.len() {
-                    bytes.truncate(k);
-                    cut = true;
-                    out.truncated_fired += 1;
-                }
-            }
-            let at = match order {
-                Order::Seeded(_) => now + 1 + rng.below(100),
-                _ => forced_rank(round, party, to),
-            };
-            q.push(Item { at, seq: *seq, ev: Ev::Deliver { round, from: party, to, bytes, cut } });
-            *seq += 1;
-        }
-        if let Some((cp, cr, _)) = plan.crash {
-            if cp == party && cr == round {
-                // crashed after (or exactly at the end of) its broadcast: it takes no further part
-                out.crashed[party] = true;
-            }
-        }
-    }
-
     let expected = |io: &dyn SessionIo, party: usize, round: usize| -> BTreeSet<usize> {
         if io.receivers(round).contains(&party) {
             io.senders(round).into_iter().filter(|&s| s != party).collect()
@@ -236,25 +201,106 @@ pub fn drive(n: usize, io: &mut dyn SessionIo, plan: &FaultPlan, order: &Order, 
             BTreeSet::new()
         }
     };
-
     let mut started = vec![false; n];
+
+    // schedule the per-recipient sends of `party` for `round`
+    #[allow(clippy::too_many_arguments)]
+    fn schedule_sends(
+        party: usize, round: usize, now: u64, seeded: bool, q: &mut BinaryHeap<Item>, seq: &mut u64, rng: &mut Prng, io: &dyn SessionIo,
+        sends_total: &mut [Vec<usize>], rank: &dyn Fn(u8, usize, usize, usize) -> u64,
+    ) {
+        if !io.senders(round).contains(&party) {
+            return;
+        }
+        let mut t = now;
+        for to in io.receivers(round) {
+            if to == party {
+                continue;
+            }
+            sends_total[party][round] += 1;
+            t = if seeded { t + rng.below(30) } else { rank(1, round, party, to) };
+            q.push(Item { at: t, seq: *seq, ev: Ev::SendTo { round, from: party, to } });
+            *seq += 1;
+        }
+    }
+
     while let Some(Item { at, ev, .. }) = q.pop() {
         now = at;
         out.events += 1;
         let who = match ev {
             Ev::Start { party } => {
                 started[party] = true;
-                broadcast(io, party, 0, now, plan, order, &mut rng, &mut q, &mut seq, &mut out, &forced_rank);
+                out.history.push((0, 0, party, party));
+                schedule_sends(party, 0, now, seeded, &mut q, &mut seq, &mut rng, io, &mut sends_total, &rank);
                 party
             }
-            Ev::Deliver { round, from, to, bytes, cut } => {
+            Ev::SendTo { round, from, to } => {
+                if out.crashed[from] {
+                    continue;
+                }
+                if let Some((cp, cr, k)) = plan.crash {
+                    if cp == from && cr == round && sends_done[from][round] >= k {
+                        if !out.crashed[from] {
+                            out.crash_fired += 1;
+                        }
+                        out.crashed[from] = true;
+                        continue;
+                    }
+                }
+                out.history.push((1, round, from, to));
+                sends_done[from][round] += 1;
+                let msg = match util::catch(|| io.send(from, round)) {
+                    Caught::Ok(Ok(m)) => Some(m),
+                    Caught::Ok(Err(e)) => {
+                        out.unexpected.push((from, format!("send failed in round {}: {}", round, e)));
+                        None
+                    }
+                    Caught::Panic(m) => {
+                        out.unexpected.push((from, format!("send panicked in round {}: {}", round, m)));
+                        None
+                    }
+                    Caught::Aborted => None,
+                };
+                if let Some(mut bytes) = msg {
+                    if plan.lost.contains(&(round, from, to)) {
+                        out.lost_fired += 1;
+                    } else {
+                        if let Some(&k) = plan.truncated.get(&(round, from, to)) {
+                            if k < bytes.len() {
+                                bytes.truncate(k);
+                                out.truncated_fired += 1;
+                            }
+                        }
+                        let at = if seeded { now + 1 + rng.below(100) } else { rank(2, round, from, to) };
+                        if plan.dup.contains(&(round, from, to)) {
+                            let at2 = if seeded { at + 1 + rng.below(150) } else { rank(3, round, from, to) };
+                            q.push(Item { at: at2, seq, ev: Ev::Deliver { round, from, to, bytes: bytes.clone(), dup: true } });
+                            seq += 1;
+                        }
+                        q.push(Item { at, seq, ev: Ev::Deliver { round, from, to, bytes, dup: false } });
+                        seq += 1;
+                    }
+                }
+                // a party whose crash point lies at or beyond the end of its broadcast stops right after it
+                if let Some((cp, cr, _)) = plan.crash {
+                    if cp == from && cr == round && sends_done[from][round] == sends_total[from][round] {
+                        out.crashed[from] = true;
+                    }
+                }
+                from
+            }
+            Ev::Deliver { round, from, to, bytes, dup } => {
                 if out.crashed[to] {
+                    continue;
+                }
+                if round < cur_round[to] {
+                    // a late copy of a message of a round the party has left: the application drops it
                     continue;
                 }
                 if round > cur_round[to] || !started[to] {
                     out.buffered_early += 1;
                 }
-                buffered[to].push((round, from, bytes, cut));
+                buffered[to].push((round, from, bytes, dup));
                 to
             }
         };
@@ -268,8 +314,18 @@ pub fn drive(n: usize, io: &mut dyn SessionIo, plan: &FaultPlan, order: &Order, 
             let (due, later): (Vec<_>, Vec<_>) = std::mem::take(&mut buffered[who]).into_iter().partition(|m| m.0 == cur);
             buffered[who] = later;
             let had_due = !due.is_empty();
-            for (round, from, bytes, _cut) in due {
-                out.delivered.push((round, from, who));
+            for (round, from, bytes, dup) in due {
+                if dup {
+                    out.dup_fired += 1;
+                    out.dup_seen[who] = true;
+                    out.history.push((3, round, from, who));
+                } else {
+                    out.delivered.push((round, from, who));
+                    out.history.push((2, round, from, who));
+                }
+                if sends_done[who][round] > 0 && sends_done[who][round] < sends_total[who][round] {
+                    out.receive_between_own_sends += 1;
+                }
                 let script = if plan.fragment { Script::draw(&mut frng, false) } else { Script::clean() };
                 let mut rd = FaultyReader::new(&bytes, script);
                 let res = util::catch(|| io.recv(who, from, round, &mut rd));
@@ -283,7 +339,9 @@ pub fn drive(n: usize, io: &mut dyn SessionIo, plan: &FaultPlan, order: &Order, 
                     Caught::Aborted => {}
                 }
             }
-            if cur < rounds - 1 && got[who][cur] == expected(io, who, cur) {
+            // a party moves on only after it has written all its own messages of the round
+            let own_sends_finished = sends_done[who][cur] == sends_total[who][cur];
+            if cur < rounds - 1 && own_sends_finished && got[who][cur] == expected(io, who, cur) {
                 let next = cur + 1;
                 match util::catch(|| io.advance(who, next)) {
                     Caught::Ok(()) => {}
@@ -294,10 +352,7 @@ pub fn drive(n: usize, io: &mut dyn SessionIo, plan: &FaultPlan, order: &Order, 
                     Caught::Aborted => break,
                 }
                 cur_round[who] = next;
-                broadcast(io, who, next, now, plan, order, &mut rng, &mut q, &mut seq, &mut out, &forced_rank);
-                if out.crashed[who] {
-                    break;
-                }
+                schedule_sends(who, next, now, seeded, &mut q, &mut seq, &mut rng, io, &mut sends_total, &rank);
                 continue;
             }
             if !had_due {
